@@ -6,7 +6,7 @@ import e_json
 
 LEVEL = "proof"
 META = dict(
-    technique="Lean 4 proof: from_json(to_json(v)) = v for every value of null / bool / 64-bit int / byte strings / nested arrays / string-keyed objects, by induction over the whole recursive-descent parser model against the printer (plus the leaf round trips and the nesting bound; tables and read census regenerated from utility/json.hpp) + ASan differential correspondence of from_json/to_json on generated trees and mutated texts",
+    technique="Lean 4 proof: from_json(to_json(v)) = v for every value of null / bool / 64-bit int / byte strings / nested arrays / string-keyed objects, by induction over the whole recursive-descent parser model against the printer, and idempotence from_json∘to_json∘from_json = from_json on every accepted double-free text by a second induction over the parser (plus the leaf round trips and the nesting bound; tables and read census regenerated from utility/json.hpp) + ASan differential correspondence of from_json/to_json on generated trees and mutated texts",
     text=("Kernel-checked: for every byte string s, parse_string applied to the quoted json_escape of s — anywhere in the input — returns exactly s and stops "
           "after the closing quote [unescape_escape]; decimal printing and parse_num<int64_t> round-trip every value below 2^63 [int_text_roundtrip]; a "
           "parse_next frame beyond depth 512 is an error, never deeper recursion [parse_depth_bounded]; the escape/unescape tables of the model are the "
@@ -14,8 +14,10 @@ META = dict(
           "[json_tables_and_census]. WHOLE VALUES [value_roundtrip_partial; Lemmas/JsonRoundtrip.lean]: for every value built from null, booleans, integers strictly "
           "inside the 64-bit range, strings of arbitrary bytes, arrays and string-keyed objects with pairwise different keys, nested below the parser's limit, "
           "parsing the text dump prints returns exactly the value — white space, first-character dispatch, the number scanner and its terminator rule, the array "
-          "and object loops with their separators and indentation, operator[] on the flat map, the depth guard and the fuel are all inside the proof. Not "
-          "proved: doubles (the property allows 1e-6) and idempotence on arbitrary accepted texts. The executable model of "
+          "and object loops with their separators and indentation, operator[] on the flat map, the depth guard and the fuel are all inside the proof. ACCEPTED TEXTS [accepted_text_gives_plain_value, text_idempotent_partial; Lemmas/JsonIdem.lean]: "
+          "whatever text the parser accepts — any bytes, white space, repeated keys, escapes — the value it returns nests no deeper than the guard allows and has no "
+          "key twice (induction over every branch of parse_next and both loops), hence from_json(to_json(from_json(t))) = from_json(t) for every accepted text whose "
+          "value holds no floating-point number and no INT64_MIN. Not proved: doubles (the property allows 1e-6). The executable model of "
           "JSONParser/dump/from_json (objects as key-sorted maps) is also compared with the real from_json/to_json on generated value trees (strings over all "
           "byte values) and on mutated/truncated/arbitrary texts, together with the property's own oracles from_json(to_json(v)) = v and idempotence, "
           "under ASan+UBSan; nesting bombs must raise, not crash. Doubles: 1e-6 tolerance, compared outside Lean."),
